@@ -289,8 +289,9 @@ def finish(prop, tier, seed, mod, results, failed, wall, nshards) -> int:
         ],
         "wall_s": round(wall, 2), "violations": nviol,
     }
-    os.makedirs(os.path.join(VERIF, "evidence"), exist_ok=True)
-    with open(os.path.join(VERIF, "evidence", f"{prop}.json"), "w") as f:
+    evdir = os.environ.get("JV_EVIDENCE_DIR") or os.path.join(VERIF, "evidence")
+    os.makedirs(evdir, exist_ok=True)
+    with open(os.path.join(evdir, f"{prop}.json"), "w") as f:
         json.dump(evidence, f, indent=1, default=str)
 
     for k, v in sorted(known.items()):
@@ -301,7 +302,7 @@ def finish(prop, tier, seed, mod, results, failed, wall, nshards) -> int:
         for v in violations:
             print("  DEBUG violation:", v["why"][:int(os.environ.get("JV_DEBUG_LEN", "220"))].replace("\n", " "))
     if nviol:
-        rdir = os.path.join(VERIF, "replays", prop)
+        rdir = os.path.join(os.environ.get("JV_REPLAY_DIR") or os.path.join(VERIF, "replays"), prop)
         os.makedirs(rdir, exist_ok=True)
         for v in violations[:5]:
             doc = {"property": prop, "seed": seed, "tier": tier, "why": v["why"], "case": v["case"],
